@@ -610,7 +610,7 @@ Proof.
   replace (n - 1) with (scan_cur (t_offset t) j) in ET by (unfold scan_cur, two64, two32 in *; lia).
   rewrite Hj in ET.
   apply (tail_scan_spec (mkE (t_tail t) (t_offset t)) rest newtail j) in ET;
-    [|exact Hwfh | exact Q | cbn [eoff]; lia | unfold flen; rewrite P7; cbn [f_sync fbytes]; rewrite Hb, concat_enc_length; cbn [length]; lia].
+    [|exact Hwfh | exact Q | cbn [eoff]; lia | unfold flen; cbn [f_sync fbytes]; rewrite ?Hb, ?concat_enc_length; cbn [length]; lia].
   cbn [eoff] in ET. destruct ET as [[D1 D2] D3].
   set (kd := N.to_nat (newdel - t_offset t)).
   assert (Hkd : (kd <= j)%nat) by (subst kd; lia).
@@ -646,8 +646,7 @@ Proof.
   destruct (N.leb_spec (fsize (t_index t)) (6 * (newdel - t_offset t3))); [discriminate|].
   inversion E; subst t'; clear E.
   unfold IdxInv, core. unfold set_flush, meta_write.
-  cbn [w_meta t_items t_offset t_hidden t_head t_tail t_headbytes t_index t_mcur t_msyn].
-  rewrite R1, R2, R3, R4, R5, R6, R7, R8.
+  cbn [w_meta w_data w_open t_items t_offset t_hidden t_head t_tail t_headbytes t_index t_mcur t_msyn].
   change (t_items T5) with (t_items t3). change (t_offset T5) with newdel. change (t_hidden T5) with (t_hidden t3).
   change (t_head T5) with (t_head t3). change (t_tail T5) with newtail. change (t_headbytes T5) with (t_headbytes t3).
   change (t_index T5) with NI. change (t_mcur T5) with (t_mcur t3).
@@ -656,6 +655,9 @@ Proof.
   unfold fsize. rewrite Hsz. cbn [mflush mver].
   assert (Hwf' : forallb entry_wf rest' = true) by (apply forallb_skipn; exact Hwf).
   assert (Hsm' : forallb small rest' = true) by (apply forallb_skipn; exact Hsm).
+  change (match newdel - t_offset t with 0 => 0 | N.pos q => N.pos (q + q~0)~0 end) with (6 * (newdel - t_offset t)).
+  assert (Hshort : 6 * (newdel - t_offset t) = N.of_nat (6 * kd)) by (subst kd; lia).
+  rewrite Hshort.
   repeat split; try assumption; try reflexivity; try lia.
   - (* validity *)
     apply check_index_suffix with (h := mkE (t_tail t) (t_offset t)); [exact Hv|].
@@ -676,6 +678,92 @@ Proof.
   - intros Hne. subst rest'. rewrite last_skipn by exact Hne.
     assert (Hr : rest <> []) by (intros Z; rewrite Z in Hne; destruct kd; cbn in Hne; congruence).
     rewrite (last_default rest (mkE newtail 0) (mkE (t_tail t) 0)) by exact Hr. apply Hhb. exact Hr.
+Qed.
+
+
+(* ---------- histories ---------- *)
+(* the history guard: every stored item fits a data file (the exact exception found by the model:
+   an item larger than maxFileSize followed by an empty stored item breaks the index, see
+   Properties/C24.v C24_synced_survive_refuted), and the magnitudes the on-disk format can hold *)
+Definition op_guard (t : table) (o : op) : Prop :=
+  match o with
+  | OAppend blobs =>
+      Forall (fun blob => N.of_nat (length (encode blob)) <= maxsz) blobs /\
+      t_head t + N.of_nat (length blobs) < 65536 /\ t_items t + N.of_nat (length blobs) < two32
+  | OTruncHead n => n < two32 /\ t_head t + 1 < 65536
+  | OTruncTail n => n < two32 /\ t_head t + 1 < 65536
+  | _ => True
+  end.
+
+Definition next (t : table) (o : op) : table :=
+  match step maxsz encode t o with Ok t' => t' | Err _ => t end.
+
+Fixpoint guarded (t : table) (h : list op) : Prop :=
+  match h with
+  | [] => True
+  | o :: r => op_guard t o /\ guarded (next t o) r
+  end.
+
+Lemma run_fst t o r : fst (run maxsz encode t (o :: r)) = fst (run maxsz encode (next t o) r).
+Proof.
+  unfold next. cbn [run]. destruct (step maxsz encode t o) as [t1|c].
+  - destruct (run maxsz encode t1 r). reflexivity.
+  - destruct (run maxsz encode t r). reflexivity.
+Qed.
+
+Lemma inv_step t o t' :
+  maxsz < two32 -> IdxInv t -> op_guard t o -> step maxsz encode t o = Ok t' -> IdxInv t'.
+Proof.
+  intros Hmax HI HG E. destruct o as [blobs|n|n| | |]; cbn [step op_guard] in *.
+  - destruct HG as (G1 & G2 & G3). eapply inv_op_append; eauto.
+  - destruct HG as (G1 & G2). eapply inv_truncate_head; eauto.
+  - destruct HG as (G1 & G2). eapply inv_truncate_tail; eauto.
+  - eapply inv_do_sync; eauto.
+  - inversion E; subst. apply inv_sync_index. exact HI.
+  - unfold sync_head in E. apply core_data_upd in E. eapply inv_core; [exact E|].
+    apply inv_sync_index. exact HI.
+Qed.
+
+Lemma inv_run h : forall t,
+  maxsz < two32 -> IdxInv t -> guarded t h -> IdxInv (fst (run maxsz encode t h)).
+Proof.
+  induction h as [|o r IH]; intros t Hmax HI HG; [exact HI|].
+  rewrite run_fst. destruct HG as [G1 G2]. apply IH; [exact Hmax| |exact G2].
+  unfold next. destruct (step maxsz encode t o) as [t1|c] eqn:E; [|exact HI].
+  eapply inv_step; eauto.
+Qed.
+
+Lemma inv_init clamp t0 : init clamp = Ok t0 -> IdxInv t0.
+Proof.
+  intros H. destruct clamp; vm_compute in H; inversion H; subst; clear H;
+  unfold IdxInv, core, IdxInvC; cbn [t_items t_offset t_hidden t_head t_tail t_headbytes t_index t_mcur t_msyn];
+  exists []; cbn; unfold two32; repeat split; try reflexivity; try lia; try congruence.
+Qed.
+
+Lemma inv_facts t : IdxInv t -> idx_facts t.
+Proof.
+  unfold IdxInv, core, IdxInvC, idx_facts. intros H. inv_destruct H.
+  exists (mkE (t_tail t) (t_offset t) :: rest).
+  repeat split; try assumption; try discriminate.
+  cbn [forallb]. unfold entry_wf at 1. cbn [efile eoff].
+  replace (t_tail t <? 65536) with true by (symmetry; apply N.ltb_lt; exact Ht).
+  replace (t_offset t <? two32) with true by (symmetry; apply N.ltb_lt; exact Ho). exact Hwf.
+Qed.
+
+(* INDEX RECOVERY FOR EVERY HISTORY AND EVERY CUT *)
+Theorem reopen_index_recovers clamp t0 h c p data (cm : bool) :
+  maxsz < two32 -> init clamp = Ok t0 -> guarded t0 h ->
+  let t := fst (run maxsz encode t0 h) in
+  valid_cut (t_index t) c p ->
+  let m := if cm then t_mcur t else t_msyn t in
+  let u := open_repair_index (crash_file (t_index t) c p) data (Some m) in
+  fbytes (t_index u) = firstn (N.to_nat (mflush (t_mcur t))) (fbytes (t_index t))
+  /\ t_mcur u = mkMeta 2 (mvtail m) (mflush (t_mcur t))
+  /\ t_msyn u = mkMeta 2 (mvtail m) (mflush (t_mcur t))
+  /\ t_data u = data.
+Proof.
+  intros Hmax Hi Hg t Hc. apply crash_index_recovers_facts; [|exact Hc].
+  apply inv_facts. apply inv_run; [exact Hmax | eapply inv_init; eauto | exact Hg].
 Qed.
 
 End Inv.
